@@ -192,6 +192,11 @@ def check_load(res: Result, props: Set[str], si: int, op: Dict[str, Any], r: Dic
                 if row.get(key) != rf_row[key]:
                     res.violate("C01", f"field-{key}/{ref_mode}",
                                 {"rank": rank, "id": eid, "got": row.get(key), "want": rf_row[key]}, si, r["i"])
+                    if key in ("name", "cat"):
+                        how = "pool" if op.get("mp", True) and len(loaded_ranks) > 1 and mode != "single" else (
+                            "single" if mode == "single" else "sequential")
+                        res.violate("C11", f"decode-{key}/{how}",
+                                    {"rank": rank, "id": eid, "got": row.get(key), "want": rf_row[key]}, si, r["i"])
             if not refmodel.num_eq(row.get("dur"), rf_row["dur"]):
                 res.violate("C01", f"field-dur/{ref_mode}",
                             {"rank": rank, "id": eid, "got": row.get("dur"), "want": str(rf_row["dur"])}, si, r["i"])
